@@ -362,3 +362,75 @@ def arc_transversal_crossing_is_reported_once_sampled(c, other):
     near = [(t2, t1) for (t2, t1) in seg.intersect(arc) if abs(t1 - t) <= 1e-4 and abs(t2 - u) <= 1e-4]
     c.ensures('seg.intersect(arc):the-crossing-is-reported', len(near) >= 1)
     c.ensures('seg.intersect(arc):reported-once', len(near) <= 1)
+
+
+@contract('C14', 'path.path_encloses_pt', params=[{'shape': s, '_bounded_only': True} for s in ('polygon', 'ellipse', 'arc+chord')])
+def path_encloses_pt_is_even_odd_enclosure_sampled(c, shape):
+    """bounded stand-in for the enclosure clause of C14 on whole concrete paths (the deductive
+    contract is relative to what Path.intersect reports): a convex polygon, an ellipse made of
+    two arcs, an arc closed by its chord - each with an inside test of its own.  The point is
+    well inside or well outside, the outside point far away, and the probe segment stays away
+    from every joint (the statement's precondition)."""
+    import svgpathtools.path as sp
+    k = [1.0, 1.0, 50.0, 0.02][int(abs(c.real('size')) * 10) % 4]
+    ctr = k * _small(c.cplx('center'), 10)
+    if shape == 'polygon':
+        n = 3 + int(abs(c.real('n')) * 10) % 5
+        gaps = [20 + (abs(c.real('a%d' % i)) * 1234.567) % 100 for i in range(n)]
+        angs = [sum(gaps[:i + 1]) * 360 / sum(gaps) for i in range(n)]
+        c.assume(all((angs[(i + 1) % n] - angs[i]) % 360 < 170 for i in range(n)))      # the centre is strictly inside
+        r = k * (1 + abs(c.real('r') * 3.3) % 3)
+        V = [ctr + r * cmath.exp(1j * math.radians(a)) for a in angs]
+        if c.bool('clockwise'):
+            V = V[::-1]
+        path = sp.Path(*[sp.Line(V[i], V[(i + 1) % n]) for i in range(n)])
+        joints = V
+        orient = 1 if not c.bool('clockwise') else -1
+
+        def depth(z):          # > 0 inside: the smallest signed distance to the edge lines
+            return min(orient * ((V[(i + 1) % n] - V[i]).conjugate() * (z - V[i])).imag / abs(V[(i + 1) % n] - V[i]) for i in range(n))
+        size = r
+    else:
+        rx, ry = k * (1 + abs(c.real('rx') * 3.3) % 2), k * (1 + abs(c.real('ry') * 3.3) % 2)
+        rot = [0.0, 0.0, 30.0, 77.0, 90.0, -45.0][int(abs(c.real('rot')) * 10) % 6]
+        w = cmath.exp(1j * math.radians(rot))
+        a0 = (c.real('a0') * 100) % 360 - 180
+        sgn = 1 if c.bool('sweep') else -1
+
+        def pt(a):
+            return ctr + w * complex(rx * math.cos(math.radians(a)), ry * math.sin(math.radians(a)))
+
+        def ell(z):            # > 0 inside the ellipse, roughly the distance to it
+            u = (z - ctr) / w
+            return (1 - math.hypot(u.real / rx, u.imag / ry)) * min(rx, ry)
+        if shape == 'ellipse':
+            d = sgn * (60 + abs(c.real('d')) * 100 % 240)
+            d2 = sgn * (360 - abs(d))
+            s, e = pt(a0), pt(a0 + d)
+            path = sp.Path(sp.Arc(s, complex(rx, ry), rot, abs(d) > 180, d > 0, e),
+                           sp.Arc(e, complex(rx, ry), rot, abs(d2) > 180, d2 > 0, s))
+            depth = ell
+        else:
+            d = sgn * (60 + abs(c.real('d')) * 100 % 270)
+            s, e = pt(a0), pt(a0 + d)
+            path = sp.Path(sp.Arc(s, complex(rx, ry), rot, abs(d) > 180, d > 0, e), sp.Line(e, s))
+            # inside = inside the ellipse and on the arc's side of the chord
+            mid = pt(a0 + d / 2)
+            side = 1 if ((e - s).conjugate() * (mid - s)).imag > 0 else -1
+
+            def depth(z):
+                return min(ell(z), side * ((e - s).conjugate() * (z - s)).imag / abs(e - s))
+        joints = [s, e]
+        size = max(rx, ry)
+    p = ctr + size * 1.6 * _small(c.cplx('pt') * 777.7, 1)
+    opt = ctr + size * (6 + abs(c.real('far')) % 3) * cmath.exp(1j * c.real('dir') * 100)
+    c.assume(abs(depth(p)) > 0.05 * size)
+    c.assume(depth(opt) < -size)
+    probe = opt - p
+    for j in joints:           # the probe passes every joint at a distance
+        u = ((j - p) * probe.conjugate()).real / abs(probe) ** 2
+        c.assume(abs(p + min(1, max(0, u)) * probe - j) > 0.05 * size)
+    if shape != 'polygon':     # and is not tangent to the ellipse: a chord through the interior or a clear miss
+        m = min(ell(p + (i / 400.0) * probe) for i in range(401))
+        c.assume(abs(max(ell(p + (i / 400.0) * probe) for i in range(401))) > 0.05 * size and m < -0.05 * size)
+    c.ensures('path_encloses_pt==inside', sp.path_encloses_pt(p, opt, path) == (depth(p) > 0))
